@@ -7,6 +7,7 @@ require (
 	github.com/cupcake/rdb v0.0.0-20161107195141-43ba34106c76
 	github.com/garyburd/redigo v1.6.2
 	github.com/vinllen/redis-go-cluster v1.0.1-0.20200724054240-c957918bbc61
+	golang.org/x/sync v0.0.0-20181221193216-37e7f081c4d4
 	pgregory.net/rapid v1.3.0
 )
 
@@ -17,6 +18,7 @@ require (
 	github.com/gugemichael/nimo4go v0.0.0-20190904073057-32795d80f83a // indirect
 	github.com/matttproud/golang_protobuf_extensions v1.0.2-0.20181231171920-c182affec369 // indirect
 	github.com/nightlyone/lockfile v0.0.0-20180618180623-0ad87eef1443 // indirect
+	github.com/pkg/errors v0.8.0 // indirect
 	github.com/prometheus/client_golang v1.0.1-0.20190617182757-3d8379da8fc2 // indirect
 	github.com/prometheus/client_model v0.0.0-20190129233127-fd36f4220a90 // indirect
 	github.com/prometheus/common v0.6.0 // indirect
